@@ -667,11 +667,11 @@ func (w *WAL) maybeSync() error {
 
 // syncLocked performs the sync operation assuming the mutex is already held
 func (w *WAL) syncLocked() error {
-	status := atomic.LoadInt32(&w.status)
-	if status == WALStatusClosed {
+	// A log that is being rotated can still be synced: the caller holds w.mu and
+	// the file stays open until Close (which needs w.mu) - failing here would
+	// report an error for a record that is already in the buffer
+	if atomic.LoadInt32(&w.status) == WALStatusClosed {
 		return ErrWALClosed
-	} else if status == WALStatusRotating {
-		return ErrWALRotating
 	}
 
 	if err := w.writer.Flush(); err != nil {
